@@ -280,4 +280,5 @@ def main():
 
 
 if __name__ == "__main__":
-    main()
+    from framework import guarded
+    guarded("C11", main)
